@@ -307,6 +307,24 @@ def gen(tier, seed):
             seen.add(key)
             mods.append(emit(f'm{n:04d}', p, r, d, mode))
             n += 1
+    # more than 256 variants: declaration order must hold beyond a one-byte tag
+    from . import shapes as S
+    for mode, traits, extra, call in [('ord', 'PartialOrd, Ord', '#[derive(PartialEq, Eq)]\n', 'Ord::cmp(&a, &b)'),
+                                      ('pord', 'PartialOrd', '#[derive(PartialEq)]\n', 'PartialOrd::partial_cmp(&a, &b).unwrap()')]:
+        decl, anyv, vidx = S.big_enum(traits, extra_attrs=extra)
+        h = Harness('h_big', covers=['less', 'greater', 'equal'])
+        body = decl + anyv + vidx + h.attrs() + f'''pub fn h_big() {{
+    let a = anyv();
+    let b = anyv();
+    let o = match (&a, &b) {{ (Big::Last(x), Big::Last(y)) => x.cmp(y), _ => vidx(&a).cmp(&vidx(&b)) }};
+    kani::cover!(o == Ordering::Less, "less");
+    kani::cover!(o == Ordering::Greater, "greater");
+    kani::cover!(o == Ordering::Equal, "equal");
+    assert!({call} == o, "ordering of a 261-variant enum differs from declaration order");
+}}
+'''
+        mods.append(Module(f'm{n:04d}', f'enum with 261 variants (V0..V259, Last(u8))/{mode}', body, [h], sample=dict(type_definition='enum Big { V0, .., V259, Last(u8) }'), functions=FUNCTIONS))
+        n += 1
     return mods
 
 
